@@ -3334,6 +3334,10 @@ class ISLaSolver:
                             existential_formula,
                         )
                         break
+                    except TimeoutError:
+                        # The check was inconclusive: keep the state. The timeout of this
+                        # internal check must not surface in the user's `solve()` call.
+                        pass
                     finally:
                         self.start_time = old_start_time
                         self.timeout_seconds = old_timeout_seconds
